@@ -31,7 +31,7 @@ EXPLANATION = ("Symbolic execution of the real TraitSet methods; elements are un
 STUBS = ["hash(int proxy) == 0 for every element (constant-hash discipline), so the real set decides membership only "
          "through __eq__, which forks on a z3 equality"]
 
-EXC = (KeyError, TraitError, TypeError, ValueError, AttributeError)
+EXC = (KeyError, TraitError, TypeError, ValueError, AttributeError, LookupError, RuntimeError, NameError, ArithmeticError)
 
 OPS1 = ["add", "discard", "remove"]                    # one element argument
 OPS0 = ["pop", "clear"]
